@@ -108,18 +108,29 @@ func run(r *mc.Run, prop string) {
 	thorough := r.Thorough()
 	debug.SetGCPercent(400)
 	if prop == "C11" {
-		p := profileC11(thorough)
-		for _, asMin := range []bool{false, true} {
-			x := newExplorer(r, prop, p, asMin)
-			x.explore("empty", nil, 2, r.Pick(3, 4))
-			// populated start: both volumes offered with the right number of replicas, EC shards on A and C
-			seed := mustPath(x, "A:full{1w,2w}", "B:full{2w}", "C:full{}", "A:ecfull{7:0x1}", "C:ecfull{7:0x1}")
-			x.explore("populated", seed, 1, r.Pick(3, 4))
-			// degraded start: volume 1 over-replicated with a read-only copy, volume 2 on all three
-			// servers with one copy that grew to the limit and was collected
-			seed = mustPath(x, "A:full{1r,2w}", "B:full{1w,2w}", "C:full{2w}", "B:full{1w,2W}", "refresh")
-			x.explore("degraded", seed, 1, r.Pick(3, 3))
-			x.flushNotes()
+		// quick: base alphabet, depth 3 from three start states.  thorough: the same to depth 4,
+		// plus the extended alphabet (read-only-at-limit volumes) to depth 3.
+		type pass struct {
+			p     *profile
+			depth int
+		}
+		passes := []pass{{profileC11(false), r.Pick(3, 4)}}
+		if thorough {
+			passes = append(passes, pass{profileC11(true), 3})
+		}
+		for _, ps := range passes {
+			for _, asMin := range []bool{false, true} {
+				x := newExplorer(r, prop, ps.p, asMin)
+				x.explore("empty", nil, 2, ps.depth)
+				// populated start: both volumes offered with the right number of replicas, EC shards on A and C
+				seed := mustPath(x, "A:full{1w,2w}", "B:full{2w}", "C:full{}", "A:ecfull{7:0x1}", "C:ecfull{7:0x1}")
+				x.explore("populated", seed, 1, ps.depth)
+				// degraded start: volume 1 over-replicated with a read-only copy, volume 2 on all three
+				// servers with one copy that grew to the limit and was collected
+				seed = mustPath(x, "A:full{1r,2w}", "B:full{1w,2w}", "C:full{2w}", "B:full{1w,2W}", "refresh")
+				x.explore("degraded", seed, 1, ps.depth)
+				x.flushNotes()
+			}
 		}
 		return
 	}
